@@ -81,6 +81,11 @@ func Callee(c ssa.CallInstruction) *ssa.Function {
 		return f
 	}
 	v := Unwrap(cc.Value)
+	// a closure handed out by a function of the module: `pred, err := newPredicate(...); pred(x)` - when every
+	// return of that function yields a closure over the same function, that function is the callee
+	if fn := closureResultOf(v, 0); fn != nil {
+		return fn
+	}
 	switch v := v.(type) {
 	case *ssa.MakeClosure:
 		if f, ok := v.Fn.(*ssa.Function); ok {
@@ -733,9 +738,61 @@ func (p *Prog) FactsAt(in ssa.Instruction) FactSet {
 	if r, ok := p.refined[in.Block()]; ok {
 		return r
 	}
+	// a function that is entered only through one call site inherits the facts that hold at that site: they are
+	// about SSA values of the caller, which do not change while the callee runs
+	if site, ok := p.context[fn]; ok && site.Parent() != fn {
+		merged := FactSet{}
+		for f := range base {
+			merged[f] = true
+		}
+		for f := range p.FactsAt(site) {
+			merged[f] = true
+		}
+		base = merged
+	}
 	r := p.RefineFacts(base)
 	p.refined[in.Block()] = r
 	return r
+}
+
+// SetContext declares that fn is entered only through the call instruction site (the caller checks this: one
+// static caller, no use as a value): facts at the site then hold throughout fn. Must be called before facts of fn
+// are asked for.
+func (p *Prog) SetContext(fn *ssa.Function, site ssa.Instruction) {
+	if p.context == nil {
+		p.context = map[*ssa.Function]ssa.Instruction{}
+	}
+	if old, ok := p.context[fn]; ok && old == site {
+		return
+	}
+	p.context[fn] = site
+	for _, b := range fn.Blocks {
+		delete(p.refined, b)
+	}
+}
+
+// ContextSite returns the call site registered for fn with SetContext, or nil.
+func (p *Prog) ContextSite(fn *ssa.Function) ssa.Instruction { return p.context[fn] }
+
+// DominatesX is Dominates across a registered calling context: an instruction of the caller that dominates the call
+// site dominates everything in the callee; an instruction of the callee that dominates all of the callee's returns
+// dominates what the call site dominates in the caller.
+func (p *Prog) DominatesX(a, b ssa.Instruction) bool {
+	if a.Parent() == b.Parent() {
+		return Dominates(a, b)
+	}
+	if site := p.context[b.Parent()]; site != nil && site.Parent() == a.Parent() {
+		return Dominates(a, site)
+	}
+	if site := p.context[a.Parent()]; site != nil && site.Parent() == b.Parent() {
+		for _, ret := range ReturnsOf(a.Parent()) {
+			if !Dominates(a, ret) {
+				return false
+			}
+		}
+		return Dominates(site, b)
+	}
+	return false
 }
 
 // RefineFacts closes a fact set under: (phi, val) with exactly one incoming edge consistent with the set => the
@@ -1013,6 +1070,64 @@ func sameAddr(a, b ssa.Value) bool {
 	}
 	pa, pb := Path(a), Path(b)
 	return pa == pb && !strings.Contains(pa, "?")
+}
+
+// closureResultOf: v is (a load of a cell holding / a captured variable bound to) a result of a call of a module function
+// all of whose returns yield, at that position, a closure over one and the same function.
+func closureResultOf(v ssa.Value, depth int) *ssa.Function {
+	if depth > 4 || v == nil {
+		return nil
+	}
+	switch x := v.(type) {
+	case *ssa.UnOp:
+		if x.Op == token.MUL {
+			if s := SingleStore(x.X); s != nil {
+				return closureResultOf(Unwrap(s), depth+1)
+			}
+		}
+	case *ssa.FreeVar:
+		if b := Binding(x); b != nil {
+			return closureResultOf(Unwrap(b), depth+1)
+		}
+	case *ssa.Alloc:
+		if s := SingleStore(x); s != nil {
+			return closureResultOf(Unwrap(s), depth+1)
+		}
+	case *ssa.Extract:
+		if c, ok := x.Tuple.(*ssa.Call); ok {
+			return closureAtResult(c, x.Index)
+		}
+	case *ssa.Call:
+		return closureAtResult(x, 0)
+	}
+	return nil
+}
+
+func closureAtResult(c *ssa.Call, idx int) *ssa.Function {
+	h := c.Call.StaticCallee()
+	if h == nil || h.Blocks == nil || !InModule(h) {
+		return nil
+	}
+	var fn *ssa.Function
+	for _, ret := range ReturnsOf(h) {
+		if idx >= len(ret.Results) {
+			return nil
+		}
+		rv := Unwrap(ret.Results[idx])
+		if IsNilConst(rv) {
+			continue // an error return
+		}
+		mc, ok := rv.(*ssa.MakeClosure)
+		if !ok {
+			return nil
+		}
+		f, ok := mc.Fn.(*ssa.Function)
+		if !ok || (fn != nil && fn != f) {
+			return nil
+		}
+		fn = f
+	}
+	return fn
 }
 
 // DependsOn reports whether v's backward slice contains a value satisfying pred.
@@ -1547,7 +1662,28 @@ func (p *Prog) CalleeCases(call *ssa.Call, val bool) ([]FactSet, map[ssa.Value]s
 		out = append(out, p.RefineFacts(tmp))
 	}
 	for _, ret := range ReturnsOf(h) {
-		cases(RetVals(ret)[0], p.FactsAt(ret), 0)
+		rv := RetVals(ret)[0]
+		// a constant returned from a block that several branches jump to (`if a || b { return true }`): one case per
+		// incoming edge, each with the facts of that edge
+		if _, isConst := ConstBool(rv); isConst && len(ret.Block().Preds) > 1 && len(ret.Block().Instrs) == 1 {
+			b := ret.Block()
+			used := map[*ssa.BasicBlock]int{}
+			for _, pred := range b.Preds {
+				n := used[pred]
+				k := 0
+				for si, sc := range pred.Succs {
+					if sc == b {
+						if k == n {
+							cases(rv, p.EdgeFacts(pred, si), 0)
+						}
+						k++
+					}
+				}
+				used[pred]++
+			}
+			continue
+		}
+		cases(rv, p.FactsAt(ret), 0)
 	}
 	return out, subst
 }
